@@ -29,8 +29,9 @@ def main():
         if f.lower().startswith("readme") or f.endswith(".txt") or f.endswith(".md"):
             readme += open(os.path.join(out, "demo", f), errors="replace").read()
     demo_files = [f for f in os.listdir(os.path.join(out, "demo")) if f.endswith(".go")]
-    m = re.search(r"wt/((?:pkg|cmd)/[A-Za-z0-9_/.-]*?)/?[\s)]", readme)
-    dest = m.group(1) if m else None
+    # destination package: the ./pkg/... argument of the `go test` command in the note
+    cands = re.findall(r"\./((?:pkg|cmd)/[A-Za-z0-9_/-]+)", readme)
+    dest = cands[-1].rstrip("/") if cands else None
     m2 = re.search(r"-run[ =]+['\"]?([A-Za-z0-9_|^$().]+)", readme)
     run = m2.group(1) if m2 else "Demo"
     if not dest:
